@@ -25,9 +25,12 @@ package main
 
 import (
 	"bytes"
+	"crypto/sha1"
+	"encoding/hex"
 	"fmt"
 	"go/ast"
 	"go/parser"
+	"go/printer"
 	"go/token"
 	"go/types"
 	"os"
@@ -43,8 +46,13 @@ var normNotes []string
 
 // declaredFuncs scans the non-test Go files under root/leveldb and returns the declared functions,
 // named as fnName names them.
-func declaredFuncs(root string, overlay map[string][]byte) (map[string]string, error) {
-	out := map[string]string{}
+type declInfo struct {
+	path string
+	hash string // of the declaration with its name blanked: a renamed function keeps it
+}
+
+func declaredFuncs(root string, overlay map[string][]byte) (map[string]declInfo, error) {
+	out := map[string]declInfo{}
 	fset := token.NewFileSet()
 	err := filepath.Walk(filepath.Join(root, "leveldb"), func(path string, info os.FileInfo, err error) error {
 		if err != nil {
@@ -67,11 +75,25 @@ func declaredFuncs(root string, overlay map[string][]byte) (map[string]string, e
 			if !ok {
 				continue
 			}
-			out[declName(rel, fd)] = path
+			out[declName(rel, fd)] = declInfo{path, declHash(fset, fd)}
 		}
 		return nil
 	})
 	return out, err
+}
+
+// declHash: hash of the printed declaration without doc comment and with the name replaced.
+func declHash(fset *token.FileSet, fd *ast.FuncDecl) string {
+	cp := *fd
+	cp.Doc = nil
+	cp.Name = &ast.Ident{Name: "_", NamePos: fd.Name.NamePos}
+	var buf bytes.Buffer
+	if err := printer.Fprint(&buf, fset, &cp); err != nil {
+		return ""
+	}
+	// positions of comments inside the body are not part of the node: only code is hashed
+	sum := sha1.Sum(buf.Bytes())
+	return hex.EncodeToString(sum[:8])
 }
 
 func declName(pkgrel string, fd *ast.FuncDecl) string {
@@ -107,21 +129,52 @@ func normalizeNewHelpers(dir string, env []string, base map[string][]byte) map[s
 	if err != nil {
 		return nil
 	}
-	var fresh []string
-	for n := range decl {
-		if !refFuncNames[n] && !strings.HasSuffix(n, ".init") {
-			fresh = append(fresh, n)
+	freshOf := func(decl map[string]declInfo) []string {
+		var fresh []string
+		for n := range decl {
+			if _, ok := refFuncNames[n]; !ok && !strings.HasSuffix(n, ".init") {
+				fresh = append(fresh, n)
+			}
 		}
+		sort.Strings(fresh)
+		return fresh
 	}
+	fresh := freshOf(decl)
 	if len(fresh) == 0 {
 		return nil
 	}
-	sort.Strings(fresh)
 	cur := map[string][]byte{}
 	for k, v := range base {
 		cur[k] = v
 	}
 	changed := false
+	// a function that merely got a new name: same package and receiver, same code, and the old name is gone
+	renames := map[string]string{}
+	for _, g := range fresh {
+		dot := strings.LastIndex(g, ".")
+		var cands []string
+		for f, h := range refFuncNames {
+			if _, still := decl[f]; still || h == "" || h != decl[g].hash {
+				continue
+			}
+			if fd := strings.LastIndex(f, "."); fd == dot && f[:fd] == g[:dot] {
+				cands = append(cands, f)
+			}
+		}
+		if len(cands) == 1 {
+			renames[g] = cands[0]
+		}
+	}
+	if len(renames) > 0 {
+		if next := applyRenames(abs, env, cur, renames); next != nil {
+			cur = next
+			changed = true
+			if d2, err := declaredFuncs(abs, cur); err == nil {
+				decl = d2
+				fresh = freshOf(decl)
+			}
+		}
+	}
 	for round := 0; round < 4; round++ {
 		n, next := inlineRound(abs, env, cur, fresh, round*1000)
 		if n == 0 {
@@ -134,6 +187,14 @@ func normalizeNewHelpers(dir string, env []string, base map[string][]byte) map[s
 		normNotes = append(normNotes, fmt.Sprintf("new functions not normalised: %s", strings.Join(fresh, ", ")))
 		return nil
 	}
+	if len(fresh) > 0 {
+		// some were handled; report those that were not
+		if d2, err := declaredFuncs(abs, cur); err == nil {
+			if rest := freshOf(d2); len(rest) > 0 {
+				normNotes = append(normNotes, fmt.Sprintf("new functions not normalised: %s", strings.Join(rest, ", ")))
+			}
+		}
+	}
 	if d := os.Getenv("LVCHECK_DUMP_NORM"); d != "" {
 		for k, v := range cur {
 			if _, isBase := base[k]; !isBase {
@@ -143,6 +204,91 @@ func normalizeNewHelpers(dir string, env []string, base map[string][]byte) map[s
 		}
 	}
 	return cur
+}
+
+// applyRenames gives renamed functions their reference names back (declaration and every use).
+func applyRenames(abs string, env []string, overlay map[string][]byte, renames map[string]string) map[string][]byte {
+	cfg := &packages.Config{
+		Mode:    packages.NeedName | packages.NeedFiles | packages.NeedCompiledGoFiles | packages.NeedImports | packages.NeedDeps | packages.NeedTypes | packages.NeedSyntax | packages.NeedTypesInfo | packages.NeedTypesSizes,
+		Dir:     abs,
+		Env:     env,
+		Overlay: overlay,
+	}
+	pkgs, err := packages.Load(cfg, "./leveldb/...")
+	if err != nil {
+		return nil
+	}
+	target := map[types.Object]string{}
+	for _, pk := range pkgs {
+		if len(pk.Errors) > 0 || pk.TypesInfo == nil || !strings.HasPrefix(pk.PkgPath, modPath) {
+			continue
+		}
+		rel := strings.TrimPrefix(pk.PkgPath, modPath)
+		for _, f := range pk.Syntax {
+			for _, d := range f.Decls {
+				if fd, ok := d.(*ast.FuncDecl); ok {
+					if to, ok := renames[declName(rel, fd)]; ok {
+						if obj := pk.TypesInfo.Defs[fd.Name]; obj != nil {
+							target[obj] = to[strings.LastIndex(to, ".")+1:]
+						}
+					}
+				}
+			}
+		}
+	}
+	if len(target) == 0 {
+		return nil
+	}
+	edits := map[string][]edit{}
+	for _, pk := range pkgs {
+		if pk.TypesInfo == nil || !strings.HasPrefix(pk.PkgPath, modPath) {
+			continue
+		}
+		add := func(id *ast.Ident, name string) {
+			pos := pk.Fset.Position(id.Pos())
+			edits[pos.Filename] = append(edits[pos.Filename], edit{pos.Offset, pos.Offset + len(id.Name), name})
+		}
+		for id, obj := range pk.TypesInfo.Defs {
+			if name, ok := target[obj]; ok {
+				add(id, name)
+			}
+		}
+		for id, obj := range pk.TypesInfo.Uses {
+			if name, ok := target[obj]; ok {
+				add(id, name)
+			}
+		}
+	}
+	next := map[string][]byte{}
+	for k, v := range overlay {
+		next[k] = v
+	}
+	for path, es := range edits {
+		src, ok := overlay[path]
+		if !ok {
+			src, _ = os.ReadFile(path)
+		}
+		sort.Slice(es, func(i, j int) bool { return es[i].start > es[j].start })
+		for _, e := range es {
+			src = append(append(append([]byte{}, src[:e.start]...), []byte(e.text)...), src[e.end:]...)
+		}
+		next[path] = src
+	}
+	cfg.Overlay = next
+	chk, err := packages.Load(cfg, "./leveldb/...")
+	if err != nil {
+		return nil
+	}
+	for _, pk := range chk {
+		if len(pk.Errors) > 0 {
+			normNotes = append(normNotes, fmt.Sprintf("renaming back does not type-check (%v): skipped", pk.Errors[0]))
+			return nil
+		}
+	}
+	for from, to := range renames {
+		normNotes = append(normNotes, fmt.Sprintf("%s is the reference function %s under a new name: analysed under its reference name", from, to))
+	}
+	return next
 }
 
 type edit struct {
